@@ -309,6 +309,12 @@ def handle (op : String) (args : List String) : String :=
     | some m, some ty, some (.lam [_] body) => "ok\t" ++ (if ty.untyped && noFuncCall m body then "true" else "false")
     | some _, some _, some _ => "ok\tfalse"
     | _, _, _ => bad
+  | "wfU", [lam] =>
+    -- hypothesis of streamOp_untyped_no_internal: a tree the parser can produce
+    match parseExpr lam with
+    | some (.lam [_] body) => "ok\t" ++ (if wfU body then "true" else "false")
+    | some _ => "ok\tfalse"
+    | none => bad
   | "simp", [c, e] => match c.toNat?, parseExpr e with
     | some c, some e => (match simplify (400 * e.size + 400) c e with
       | .ok (e', _) => okE e'
